@@ -76,6 +76,8 @@ typedef struct scn {
     int ovl; long delta; /* src = dest + delta elements inside one slot */
     int bos;          /* 0 unknown 1 exact 2 dest object larger than dmax, known */
     int untruth;      /* 1: dmax above limit with dest in unmapped memory; 2: slen above limit, src unmapped */
+    int rog;          /* 2: the same for the source (an unterminated source of known size is followed by a readable NUL); 1: the page behind the end-flush dest is readable (zeros) but not writable: a store to dest[dmax] faults even where the
+                         over-read of an unterminated dest is tolerated */
     long val; size_t n;
     int alpha;
     uint64_t cseed;
